@@ -129,7 +129,19 @@ func RunWorker(p *Prop, tier string, seed uint64, start, stride, n int, hashPath
 
 // evalGuarded runs Eval and turns a panic that escapes the monitor itself into a violation of class "harness-panic"
 // (library calls inside monitors are individually recovered; reaching this means an unexpected escape).
+// BeforeCase and AfterCase (optional) run around every case in the worker, for monitors that watch all properties
+// (e.g. canaries behind slices handed to the library).
+var BeforeCase, AfterCase func(c *Ctx)
+
 func evalGuarded(p *Prop, c *Ctx, data any) {
+	if BeforeCase != nil {
+		BeforeCase(c)
+	}
+	defer func() {
+		if AfterCase != nil {
+			AfterCase(c)
+		}
+	}()
 	defer func() {
 		if r := recover(); r != nil {
 			c.Violation("case", "escaped-panic", firstLibFrame(string(debug.Stack())), fmt.Sprintf("panic escaped the monitor: %v\n%s", r, trimStack(string(debug.Stack()))))
